@@ -269,7 +269,7 @@ URIS = [
 
 def check_faces(ctx, rng):
     uris = list(URIS)
-    for _ in range(ctx.n(200, 5000)):
+    for _ in range(ctx.n(200, 3000000)):
         scheme = rng.choice(['tcp', 'tcp4', 'tcp6', 'udp', 'udp4', 'udp6', 'ws', 'quic', 'ftp', 'tcpx', 'Tcp', 'UDP6', 'tcps', 'tcp46', 'tcp+tls',
                              'udplite', 'udp5', 'udp-dev', 'xtcp', 'tc', 'ud', 'unixs', 'tcp4x', 'udp6.1'])
         host = rng.choice(['h', 'a.b.c', '1.2.3.4', '[::1]', '[2001:db8::1]', 'localhost'])
@@ -312,7 +312,7 @@ def check_faces(ctx, rng):
 def check_keychain(ctx, rng):
     root = tempfile.mkdtemp(prefix='nvf-kc-')
     try:
-        for i in range(ctx.n(6, 40)):
+        for i in range(ctx.n(6, 400)):
             pib_dir = os.path.join(root, f'pib{i}')
             tpm_dir = os.path.join(root, f'tpm {i}' if i % 2 else f'tpm{i}')
             os.makedirs(pib_dir)
